@@ -302,6 +302,10 @@ class Builder(object):
 
     def t_Compare(self, node):
         parts = []
+        # a is b is None: every link of a chain of `is` that ends in a constant is that constant (num is denom is None == num is None and denom is None)
+        if len(node.ops) > 1 and all(isinstance(o, ast.Is) for o in node.ops) and isinstance(node.comparators[-1], ast.Constant):
+            last = simp(self.t(node.comparators[-1]))
+            return ('and',) + tuple(mk_cmp('is', simp(self.t(e)), last) for e in [node.left] + list(node.comparators[:-1]))
         left = simp(self.t(node.left))
         for op, right in zip(node.ops, node.comparators):
             r = simp(self.t(right))
